@@ -44,6 +44,17 @@ def _repeated_subexpr_program(ch: Chooser):
         nm = c.fresh("s")
         c.stmts.append(["decl", "Signal", nm, e])
         c.sigs.append(nm)
+    # reuse triples: a computed value t, a same-typed derived value T = f(t), and a consumer of both
+    for _ in range(ch.rint(0, 3)):
+        src = g.sig_leaf()
+        t = c.fresh("t")
+        c.stmts.append(["decl", "Signal", t, ["bin", ch.pick(["*", "+", "-"]), src, ["lit", ch.rint(2, 9), 10]]])
+        T = c.fresh("t")
+        c.stmts.append(["decl", "Signal", T, ["bin", ch.pick(["+", "*", "<<", "-"]), ["var", t], ["lit", ch.rint(1, 5), 10]]])
+        S = c.fresh("s")
+        a, b = (["var", t], ["var", T]) if ch.chance(1, 2) else (["var", T], ["var", t])
+        c.stmts.append(["decl", "Signal", S, ["bin", ch.pick(["-", "*", "XOR", "+", "/"]), a, b]])
+        c.sigs += [t, T, S]
     for k in range(ch.rint(0, 3)):
         nm = f"lamp{k}"
         c.stmts.append(["place", nm, "small-lamp", ["lit", k * 2, 10], ["lit", -4, 10], None])
@@ -53,7 +64,7 @@ def _repeated_subexpr_program(ch: Chooser):
 
 
 def gen_case(ch: Chooser, tier: str = "quick") -> dict:
-    fam = ch.weighted([(4, "c01"), (3, "repeat"), (2, "c02"), (2, "c03"), (2, "c05"), (2, "c06"), (2, "c04")])
+    fam = ch.weighted([(5, "c01"), (5, "repeat"), (2, "c02"), (2, "c03"), (2, "c05"), (2, "c06"), (2, "c04")])
     if fam == "repeat":
         for _ in range(20):
             stmts, inputs, thr = _repeated_subexpr_program(ch)
